@@ -372,7 +372,8 @@ func c12Sequence(c *core.Ctx, k c12Cfg, length int) {
 				bad(fmt.Sprintf("redirect/message-param-count/kind%d/%s", kind, relayCls), fmt.Sprintf("%d %s parameters", len(msgs), param))
 				return
 			}
-			if relay == "" && len(relays) != 0 || relay != "" && (len(relays) != 1 || relays[0] != relay) {
+			// an empty relay state is carried equally well by no parameter and by one parameter with an empty value
+			if relay == "" && !(len(relays) == 0 || len(relays) == 1 && relays[0] == "") || relay != "" && (len(relays) != 1 || relays[0] != relay) {
 				bad(fmt.Sprintf("redirect/relay-state/kind%d/%s", kind, relayCls), fmt.Sprintf("RelayState parameters %q, input %q", relays, relay))
 				return
 			}
